@@ -187,6 +187,7 @@ CAT_CLASSES = [
     "responses is empty", "server not found", "\"similar\" paths", "tag not found", "the directive Protocol must be unique",
     "the directive \"Protocol\" was not found", "the parameter value have to be", "there is no body for the Path directive",
     "unknown schema notation", "unsupported version of JSIGHT", "wrong description context",
+    "undefined request body", "undefined response body",
 ]
 MODEL_TO_IMPL = {"similar paths": "\"similar\" paths", "parameter is duplicated in the path": "is duplicated in the path",
                  "the directive Protocol was not found": "the directive \"Protocol\" was not found"}
